@@ -49,7 +49,7 @@ class InjectedError(Exception):
 
 
 class Tok:
-    __slots__ = ("n", "kind", "future", "site", "observed", "nid")
+    __slots__ = ("n", "kind", "future", "site", "observed", "nid", "pool")
 
     def __init__(self, n: int, kind: str) -> None:
         self.n = n
@@ -58,6 +58,7 @@ class Tok:
         self.site: Optional[str] = None
         self.observed = False
         self.nid: Optional[str] = None
+        self.pool: Any = None
 
 
 def current_exec() -> "Optional[Exec]":
@@ -195,6 +196,20 @@ class Exec:
                     return
                 if time.monotonic() > end:
                     self.uncontrolled = True
+                    # structural witness of starvation: the node is still queued in a pool all of whose workers are
+                    # busy (a free worker would have picked it up at once) - not mere slowness
+                    starved = []
+                    for t in missing:
+                        try:
+                            q = t.pool._work_queue.qsize()
+                            busy = len(t.pool._threads) >= t.pool._max_workers
+                        except Exception:  # noqa: BLE001
+                            q, busy = 0, False
+                        if q > 0 and busy:
+                            starved.append({"tok": t.n, "nid": t.nid, "queued": q, "workers": t.pool._max_workers})
+                    if starved:
+                        e = {"seq": len(self.events), "k": "STARVED", "starved": starved}
+                        self.events.append(e)
                     return
                 self.cv.wait(0.01)
 
@@ -401,6 +416,7 @@ class Exec:
             tok = Tok(len(self.toks), kind)
             self.toks.append(tok)
         tok.nid = _guess_node_id(fn)
+        tok.pool = pool
         ex = self
 
         def run(*a: Any, **k: Any) -> Any:
